@@ -154,8 +154,7 @@ func solveOne(dir, name, query string, timeoutMs int, wantModel bool) *SolveResu
 		ms                  int64
 	}
 	ch := make(chan ans, len(solvers))
-	for _, s := range solvers {
-		s := s
+	launch := func(s solverSpec) {
 		go func() {
 			t0 := time.Now()
 			a := s.args(timeoutMs)
@@ -180,6 +179,25 @@ func solveOne(dir, name, query string, timeoutMs int, wantModel bool) *SolveResu
 			}
 			ch <- ans{s.name, st, o, time.Since(t0).Milliseconds()}
 		}()
+	}
+	// staggered race: most obligations are decided by the first solver within a fraction of a
+	// second; the others are only started when it has not answered by then
+	launch(solvers[0])
+	var early *ans
+	select {
+	case a := <-ch:
+		early = &a
+	case <-time.After(400 * time.Millisecond):
+	}
+	if early != nil && (early.status == "unsat" || early.status == "sat") {
+		return &SolveResult{Status: early.status, Solver: early.solver, Ms: early.ms, Output: early.out, Model: early.out, Tried: []string{fmt.Sprintf("%s:%s:%dms", early.solver, early.status, early.ms)}}
+	}
+	for _, s := range solvers[1:] {
+		launch(s)
+	}
+	if early != nil {
+		e := *early
+		go func() { ch <- e }()
 	}
 	res := &SolveResult{Status: "unknown"}
 	var outs []string
